@@ -223,11 +223,15 @@ func init() {
 	}
 	lineCmds["ngapdec"] = func(in map[string]interface{}) map[string]interface{} {
 		root, _ := ngapRootOf(in)
-		v, err := ngapDecodeRoot(root, exactBytes(unhex(in, "hex")), in)
+		inb := exactBytes(unhex(in, "hex"))
+		v, err := ngapDecodeRoot(root, inb, in)
 		if err != nil {
 			return map[string]interface{}{"err": err.Error()}
 		}
 		out := map[string]interface{}{"value": ngapDump(v)}
+		if hx(inb) != str(in, "hex") {
+			out["input_after"] = hx(inb) // a decoder reads its input: the caller's buffer must come back unchanged
+		}
 		if b, ok := in["re"].(bool); ok && b {
 			func() {
 				defer func() {
